@@ -20,6 +20,15 @@ def tgt_record(expr, ctx):
 
 
 def make_case(g, r, max_base=3, max_var=3, spins=False):
+    for _ in range(50):
+        try:
+            return _make_case(g, r, max_base, max_var, spins)
+        except RuntimeError:
+            continue
+    raise RuntimeError("could not generate a case")
+
+
+def _make_case(g, r, max_base=3, max_var=3, spins=False):
     real = r.random() < 0.5
     g.new_expression(real)
     explicit = r.random() < 0.4
@@ -28,9 +37,10 @@ def make_case(g, r, max_base=3, max_var=3, spins=False):
     for _ in range(r.randint(1, max_base)):
         hyper = 0.15 if explicit else 0.0
         base = g.term(targets, hyper_prob=hyper,
+                      repeat_targets=0.35 if explicit else 0.0,
                       kinds=r.choice(["AAMSNVfD", "VVfMM", "AAVf", "MMVD",
                                       "ASNV", "aN", "asN", "aaNV", "sNN",
-                                      "aAN"]))
+                                      "aAN", "aa", "as", "aaa"]))
         terms.append(base)
         rep = len(terms)
         cls.append((rep, {}))
@@ -50,6 +60,36 @@ def make_case(g, r, max_base=3, max_var=3, spins=False):
     return real, explicit, targets, terms, cls, order
 
 
+def structured_terms(g, r):
+    """A target index that occurs on several one-particle bra-ket
+    (anti)symmetric tensors together with ONE contracted index; the two
+    alpha-variants name the contracted index before / after the target, so
+    the canonical bra-ket orientation of the tensors differs."""
+    sp = r.choice("ov")
+    base = gen.BASE[sp]
+    pos = r.randint(1, len(base) - 2)
+    t = (base[pos], "")
+    before = (r.choice(base[:pos]), "")
+    after = (r.choice(base[pos + 1:]), "")
+    n = r.choice([2, 2, 3])
+    names = r.sample(["Kd", "Hd", "Gd", "Rd"], n)
+    bks = [r.choice([1, -1, -1]) for _ in range(n)]
+    orient = [r.random() < 0.5 for _ in range(n)]
+    exps = [r.choice([1, 1, 1, 3]) for _ in range(n)]
+
+    def term(c, pref):
+        objs = []
+        for nm, bk, o, e_ in zip(names, bks, orient, exps):
+            up, lo = ([t], [c]) if o else ([c], [t])
+            objs.append(dict(kind="A", name=nm, upper=up, lower=lo, bk=bk,
+                             exp=e_))
+        return dict(pref=pref, objs=objs)
+    t1 = term(before, g.pref(sqrt_prob=0))
+    t2 = term(after, g.pref(sqrt_prob=0))
+    cls = [(1, {}), (1, {after: before})]
+    return [t], [t1, t2], cls
+
+
 def run(chk):
     r = random.Random(chk.seed)
     n_cases = 120 if chk.tier == "quick" else 1500
@@ -57,8 +97,12 @@ def run(chk):
     gs = gen.Gen(chk.seed + 1, spaces="ov", spins=True, numbered_prob=0.1)
     for case in range(n_cases):
         gg = gs if case % 5 == 4 else g
-        real, explicit, targets, terms, cls, order = make_case(
-            gg, r, max_base=3 if chk.tier == "quick" else 5)
+        if case % 6 == 5:
+            real, explicit = False, True
+            targets, terms, cls = structured_terms(gg, r)
+        else:
+            real, explicit, targets, terms, cls, order = make_case(
+                gg, r, max_base=3 if chk.tier == "quick" else 5)
         tsyms = [gen.sym_of(t) for t in targets]
         sym_terms = [gen.build_term(t) for t in terms]
         from sympy import Add
